@@ -14,13 +14,13 @@ package format
 //@ func isValidString(s) (ok)
 //@   loop 1 invariant 0 <= $pos && $pos <= len(s) && (forall j in 0..$pos :: 33 <= at(s, j) && at(s, j) <= 126)
 //@   loop 1 decreases len(s) - $pos
-//@   ensures#iff ok <==> isvalid(s)                                                      [C07 C14 C16]
+//@   ensures#iff ok <==> isvalid(s)                                                      [C03 C07 C14 C16]
 //@   modifies nothing
 
 //@ func splitArgs(line) (prefix, args)
 //@   ensures#len len(args) >= 0
-//@   ensures#join splitjoin(rg(args), off(args) - 1, len(args) + 1) == str(sub(bytes(line), 0, len(line) - (hassuffix(bytes(line), "\n") ? 1 : 0)))   [C07 C03]
-//@   ensures#nospace nospace(prefix) && (forall j in 0..len(args) :: nospace(args[j]))  [C07 C03]
+//@   ensures#join splitjoin(rg(args), off(args) - 1, len(args) + 1) == str(sub(bytes(line), 0, len(line) - (hassuffix(bytes(line), "\n") ? 1 : 0)))   [C01 C03 C05 C07]
+//@   ensures#nospace nospace(prefix) && (forall j in 0..len(args) :: nospace(args[j]))  [C01 C03 C05 C07]
 //@   modifies nothing
 
 //@ func (*StanzaReader).ReadStanza(r) (s, err)
@@ -30,16 +30,16 @@ package format
 //@   loop 1 invariant -1 <= rangeindex && rangeindex < len(args) && (forall j in 0..rangeindex+1 :: isvalid(args[j]))
 //@   loop 1 decreases len(args) - rangeindex
 //@   loop 2 invariant s != nil && r.r != nil && len(s.Body) % 48 == 0 && isvalid(s.Type) && (forall j in 0..len(s.Args) :: isvalid(s.Args[j])) && issuffix(r.r.$rem, old(r.r.$rem)) && len(r.r.$rem) < len(old(r.r.$rem)) && old(r.err) == nil && fresh(s) && (rg(s.Body) == 0 || fresh(s.Body))
-//@   loop 2 invariant#size len(old(r.r.$rem)) - len(r.r.$rem) == len(lastret("ReadBytes",1,0)) + (len(s.Body) / 48) * 65           [C03 C07]
+//@   loop 2 invariant#size len(old(r.r.$rem)) - len(r.r.$rem) == len(lastret("ReadBytes",1,0)) + (len(s.Body) / 48) * 65           [C01 C03 C05 C07]
 //@   loop 2 decreases len(r.r.$rem)
 //@   ensures#sticky old(r.err) != nil ==> s == nil && err == old(r.err) && r.r.$rem == old(r.r.$rem)     [C07 C13 C16]
 //@   ensures#stored r.err == err                                                                           [C07 C13 C16]
 //@   ensures#reject err != nil ==> s == nil                                                                [C07 C14 C16]
 //@   ensures#valid err == nil ==> s != nil && isvalid(s.Type) && (forall j in 0..len(s.Args) :: isvalid(s.Args[j]))   [C07 C14 C16]
 //@   ensures#progress err == nil ==> len(r.r.$rem) < len(old(r.r.$rem)) && issuffix(r.r.$rem, old(r.r.$rem))          [C07 C14 C16]
-//@   ensures#size err == nil ==> len(old(r.r.$rem)) - len(r.r.$rem) == len(lastret("ReadBytes",1,0)) + (len(s.Body) / 48) * 65 + (4 * (len(s.Body) % 48) + 2) / 3 + 1   [C03 C07]
-//@   ensures#marker err == nil ==> lastret("splitArgs",1,0) == "->" && len(lastret("splitArgs",1,1)) >= 1                          [C03 C07 C16]
-//@   ensures#fields err == nil ==> s.Type == lastret("splitArgs",1,1)[0] && len(s.Args) == len(lastret("splitArgs",1,1)) - 1 && (forall j in 0..len(s.Args) :: s.Args[j] == lastret("splitArgs",1,1)[j + 1])   [C03 C07 C16]
+//@   ensures#size err == nil ==> len(old(r.r.$rem)) - len(r.r.$rem) == len(lastret("ReadBytes",1,0)) + (len(s.Body) / 48) * 65 + (4 * (len(s.Body) % 48) + 2) / 3 + 1   [C01 C03 C05 C07]
+//@   ensures#marker err == nil ==> lastret("splitArgs",1,0) == "->" && len(lastret("splitArgs",1,1)) >= 1                          [C01 C03 C05 C07 C16]
+//@   ensures#fields err == nil ==> s.Type == lastret("splitArgs",1,1)[0] && len(s.Args) == len(lastret("splitArgs",1,1)) - 1 && (forall j in 0..len(s.Args) :: s.Args[j] == lastret("splitArgs",1,1)[j + 1])   [C01 C03 C05 C07 C16]
 //@   ensures#argsnonnil err == nil ==> !isnil(s.Args)                                                              [C16]
 //@   ensures#suffix issuffix(r.r.$rem, old(r.r.$rem))
 //@   ensures#wrapopen lasterr("ReadBytes",1) != nil ==> err != nil && wraps(err, lasterr("ReadBytes",1))        [C13 C14]
@@ -54,16 +54,16 @@ package format
 //@   loop 1 invariant#freshrec rg(h.Recipients) == 0 || fresh(h.Recipients)
 //@   loop 1 invariant#noerr lasterr("ReadStanza",1) == nil && lasterr("Peek",1) == nil && lasterr("ReadBytes",1) == nil
 //@   loop 1 decreases len(rr.$rem)
-//@   ensures#intro err == nil ==> sub(old(input.$rem), 0, 22) == "age-encryption.org/v1\n"                   [C03 C05 C07]
+//@   ensures#intro err == nil ==> sub(old(input.$rem), 0, 22) == "age-encryption.org/v1\n"                   [C01 C03 C05 C07]
 //@   ensures#count err == nil ==> len(h.Recipients) == calls("ReadStanza",1) - old(calls("ReadStanza",1))    [C01 C03 C07]
-//@   ensures#footerlf err == nil ==> len(lastret("ReadBytes",1,0)) >= 1 && lastret("ReadBytes",1,0)[len(lastret("ReadBytes",1,0)) - 1] == 10   [C03 C07]
-//@   ensures#footer err == nil ==> lastret("splitArgs",1,0) == "---" && len(lastret("splitArgs",1,1)) == 1        [C03 C05 C07]
+//@   ensures#footerlf err == nil ==> len(lastret("ReadBytes",1,0)) >= 1 && lastret("ReadBytes",1,0)[len(lastret("ReadBytes",1,0)) - 1] == 10   [C01 C03 C05 C07]
+//@   ensures#footer err == nil ==> lastret("splitArgs",1,0) == "---" && len(lastret("splitArgs",1,1)) == 1        [C01 C03 C05 C07]
 //@   ensures#reject err != nil ==> h == nil && payload == nil                       [C07 C14]
 //@   ensures#wrapintro lasterr("ReadString",1) != nil ==> err != nil && wraps(err, lasterr("ReadString",1))      [C13 C14]
 //@   ensures#wrappeek lasterr("Peek",1) != nil ==> err != nil && wraps(err, lasterr("Peek",1))                   [C13 C14]
 //@   ensures#wrapfooter lasterr("ReadBytes",1) != nil ==> err != nil && wraps(err, lasterr("ReadBytes",1))       [C13 C14]
 //@   ensures#wrapstanza lasterr("ReadStanza",1) != nil ==> err != nil && wraps(err, lasterr("ReadStanza",1))     [C13 C14]
-//@   ensures#ok err == nil ==> h != nil && payload != nil && len(h.MAC) == 32       [C07 C03]
+//@   ensures#ok err == nil ==> h != nil && payload != nil && len(h.MAC) == 32       [C01 C03 C05 C07]
 //@   ensures#stanzas err == nil ==> (forall j in 0..len(h.Recipients) :: h.Recipients[j] != nil)
 //@   ensures#payload err == nil ==> issuffix(payload.$rem, old(input.$rem))           [C07 C12 C01 C02]
 //@   ensures#payloadid err == nil ==> (id(payload) == id(input) || fresh(payload))   [C20]
@@ -75,17 +75,17 @@ package format
 //@   requires#empty len(w.buf.$bbuf) == 0
 //@   requires w.dst != nil && w.written >= 0 && w.written + len(p) <= 4611686018427387904
 //@   loop 1 invariant 0 <= len(p) && len(p) <= len(old(p)) && rg(p) == rg(old(p)) && off(p) + len(p) == off(old(p)) + len(old(p)) && w.written >= 0 && w.written + len(p) <= 4611686018427387904 && w.dst == old(w.dst) && w.dst.$out == old(w.dst.$out)
-//@   loop 1 invariant#written w.written == old(w.written) + (len(old(p)) - len(p))                                [C07 C08]
-//@   loop 1 invariant#text w.buf.$bbuf == wrapcols(old(w.written), bytes(old(p)[:len(old(p)) - len(p)]))   [C01 C07 C08]
+//@   loop 1 invariant#written w.written == old(w.written) + (len(old(p)) - len(p))                                [C01 C03 C05 C07 C08]
+//@   loop 1 invariant#text w.buf.$bbuf == wrapcols(old(w.written), bytes(old(p)[:len(old(p)) - len(p)]))   [C01 C03 C05 C07 C08]
 //@   loop 1 decreases len(p)
-//@   ensures#written err == nil ==> w.written == old(w.written) + len(old(p))                                      [C07 C08]
-//@   ensures#out err == nil ==> w.dst.$out == cat(old(w.dst.$out), wrapcols(old(w.written), old(bytes(p)))) && len(w.buf.$bbuf) == 0   [C01 C07 C08]
+//@   ensures#written err == nil ==> w.written == old(w.written) + len(old(p))                                      [C01 C03 C05 C07 C08]
+//@   ensures#out err == nil ==> w.dst.$out == cat(old(w.dst.$out), wrapcols(old(w.written), old(bytes(p)))) && len(w.buf.$bbuf) == 0   [C01 C03 C05 C07 C08]
 //@   ensures#prefix exists k in 0..len(wrapcols(old(w.written), old(bytes(p))))+1 :: w.dst.$out == cat(old(w.dst.$out), sub(wrapcols(old(w.written), old(bytes(p))), 0, k))   [C13]
 //@   modifies w.written, w.buf.$bbuf, w.dst.$out
 
 //@ func (*WrappedBase64Encoder).LastLineIsEmpty(w) (r)
 //@   requires w.written >= 0
-//@   ensures#iff r <==> w.written % 64 == 0                                                                        [C07 C08]
+//@   ensures#iff r <==> w.written % 64 == 0                                                                        [C01 C05 C07 C08]
 //@   modifies nothing
 
 //@ func NewWrappedBase64Encoder(enc, dst) (w)
@@ -115,9 +115,9 @@ package format
 //@   loop 1 invariant -1 <= rangeindex && rangeindex < len($ranged) && w != nil
 //@   loop 1 invariant#append hasprefix(w.$out, old(w.$out))                                                       [C13 C16]
 //@   loop 1 decreases len($ranged) - rangeindex
-//@   call Writer).Write#1 requires arg0 == w && bytes(arg1) == "->"                                               [C05 C07]
-//@   call NewWrappedBase64Encoder#1 requires arg0 == b64 && arg1 == w                                             [C05 C07]
-//@   call WrappedBase64Encoder).Write#1 requires same(arg1, r.Body)                                               [C03 C05 C07]
+//@   call Writer).Write#1 requires arg0 == w && bytes(arg1) == "->"                                               [C01 C03 C05 C07]
+//@   call NewWrappedBase64Encoder#1 requires arg0 == b64 && arg1 == w                                             [C01 C03 C05 C07]
+//@   call WrappedBase64Encoder).Write#1 requires same(arg1, r.Body)                                               [C01 C03 C05 C07]
 //@   ensures#append hasprefix(w.$out, old(w.$out))                                                                [C13 C16]
 //@   loop 1 invariant#noerr lasterr("io.WriteString",1) == nil && lasterr("Writer).Write",1) == nil
 //@   ensures#errs err == nil ==> lasterr("Writer).Write",1) == nil && lasterr("io.WriteString",1) == nil && lasterr("io.WriteString",2) == nil && lasterr("WrappedBase64Encoder).Write",1) == nil && lasterr("WrappedBase64Encoder).Close",1) == nil && lasterr("io.WriteString",3) == nil   [C13]
@@ -128,8 +128,8 @@ package format
 //@   requires h != nil && w != nil && (forall j in 0..len(h.Recipients) :: h.Recipients[j] != nil)
 //@   loop 1 invariant -1 <= rangeindex && rangeindex < len(h.Recipients) && w != nil && (forall j in 0..len(h.Recipients) :: h.Recipients[j] != nil)
 //@   loop 1 decreases len(h.Recipients) - rangeindex
-//@   call io.WriteString#1 requires arg0 == w && arg1 == "age-encryption.org/v1\n"                                [C05 C07]
-//@   call Marshal#0 requires arg1 == w                                                                            [C03 C05 C07]
+//@   call io.WriteString#1 requires arg0 == w && arg1 == "age-encryption.org/v1\n"                                [C01 C05 C07]
+//@   call Marshal#0 requires arg1 == w                                                                            [C01 C03 C05 C07]
 //@   assumes#out err == nil ==> w.$out == cat(old(w.$out), hdrbytes(h))                                          [C03 C05 C07]
 //@   loop 1 invariant#noerr lasterr("Marshal",1) == nil && lasterr("io.WriteString",1) == nil
 //@   ensures#errs err == nil ==> lasterr("io.WriteString",1) == nil && lasterr("Marshal",1) == nil && lasterr("fmt.Fprintf",1) == nil && calls("fmt.Fprintf",1) == old(calls("fmt.Fprintf",1)) + 1   [C13]
@@ -139,16 +139,16 @@ package format
 
 //@ func (*Header).Marshal(h, w) (err)
 //@   requires h != nil && w != nil && (forall j in 0..len(h.Recipients) :: h.Recipients[j] != nil)
-//@   call MarshalWithoutMAC#1 requires arg0 == h && arg1 == w                                                     [C03 C05 C07]
-//@   call EncodeToString#1 requires same(arg1, h.MAC)                                                             [C03 C05 C07]
-//@   ensures#out err == nil ==> w.$out == cat(old(w.$out), hdrbytes(h), " ", b64raw(bytes(h.MAC)), "\n")          [C03 C05 C07]
+//@   call MarshalWithoutMAC#1 requires arg0 == h && arg1 == w                                                     [C01 C03 C05 C07]
+//@   call EncodeToString#1 requires same(arg1, h.MAC)                                                             [C01 C03 C05 C07]
+//@   ensures#out err == nil ==> w.$out == cat(old(w.$out), hdrbytes(h), " ", b64raw(bytes(h.MAC)), "\n")          [C01 C03 C05 C07]
 //@   ensures#errs err == nil ==> lasterr("MarshalWithoutMAC",1) == nil && lasterr("fmt.Fprintf",1) == nil && calls("fmt.Fprintf",1) == old(calls("fmt.Fprintf",1)) + 1   [C13]
 //@   assumes#count $hmarshal == old($hmarshal) + 1
 //@   modifies w.$out, w.$wn, $hmarshal
 
 //@ func DecodeString(s) (b, err)
-//@   ensures#canon err == nil <==> b64rawok(s)                                          [C07]
-//@   ensures#val err == nil ==> bytes(b) == unb64raw(s)                                 [C07]
+//@   ensures#canon err == nil <==> b64rawok(s)                                          [C01 C03 C05 C07 C16]
+//@   ensures#val err == nil ==> bytes(b) == unb64raw(s)                                 [C01 C03 C05 C07 C16]
 //@   fresh b when err == nil && len(b) > 0
 //@   modifies nothing
 
